@@ -76,7 +76,7 @@ def gen_plan(tape, cfg):
             ops.append({"op": "assert", "f": bp.gen_term(tape, bp.BOOL, 2, ctx),
                         "api": tape.choice(["add_assertion", "add_assertion", "add_assertions", "named"], "assert.api")})
         elif k == "assert_soft":
-            gid = tape.choice([None, "g1", "g2"], "soft.id")
+            gid = tape.choice([None, "g1", "g2", "I"], "soft.id")     # "I" is the parser's default group id
             w = tape.choice([None, 1, 2, 5], "soft.w")
             ops.append({"op": "assert_soft", "f": bp.gen_term(tape, bp.BOOL, 1, ctx), "id": gid, "w": w})
         elif k == "push":
@@ -479,6 +479,7 @@ def _script_half(plan, ops, symbols, probe, trace):
     env = _fresh_env()
     mgr = env.formula_manager
     model = StackModel()
+    model_p = StackModel()      # the parsed route: (assert-soft a) without :id belongs to group I
     nontrivial = False
     # ---- text rendering (own printer)
     lines = ["(set-logic QF_BV)"]
@@ -496,6 +497,7 @@ def _script_half(plan, ops, symbols, probe, trace):
             direct.add(smtcmd.ASSERT, [f])
             lines.append("(assert %s)" % bp.to_smtlib(o["f"]))
             model.assert_(i)
+            model_p.assert_(i)
         elif k == "assert_soft":
             f = bp.build(o["f"], env)
             params = []
@@ -509,10 +511,12 @@ def _script_half(plan, ops, symbols, probe, trace):
             direct.add(smtcmd.ASSERT_SOFT, [f, params])
             lines.append(txt + ")")
             model.assert_soft(o["id"], i, o["w"] if o["w"] is not None else 1)
+            model_p.assert_soft(o["id"] if o["id"] is not None else "I", i, o["w"] if o["w"] is not None else 1)
         elif k == "push":
             direct.add(smtcmd.PUSH, [o["n"]])
             lines.append("(push)" if (o["n"] == 1 and i % 3 == 0) else "(push %d)" % o["n"])
             model.push(o["n"])
+            model_p.push(o["n"])
             if o["n"] > 1:
                 nontrivial = True
         elif k == "pop":
@@ -523,10 +527,12 @@ def _script_half(plan, ops, symbols, probe, trace):
                 if any(e[0] == "soft" for fr in model.frames[-o["n"]:] for e in fr):
                     probe("pop2_across_soft_group")
             model.pop(o["n"])
+            model_p.pop(o["n"])
         elif k == "reset":
             direct.add(smtcmd.RESET_ASSERTIONS, [])
             lines.append("(reset-assertions)")
             model.reset_assertions()
+            model_p.reset_assertions()
         elif k == "check":
             direct.add(smtcmd.CHECK_SAT, [])
             lines.append("(check-sat)")
@@ -549,6 +555,7 @@ def _script_half(plan, ops, symbols, probe, trace):
                 direct.add(GOAL_CMD[o["kind"]], [ts, opts])
             lines.append("(%s %s%s)" % (o["kind"], txt_terms, "".join(topts)))
             model.add_goal(i)
+            model_p.add_goal(i)
     text = "\n".join(lines) + "\n"
     parsed = api("parser.get_script", lambda: SmtLibParser(environment=env).get_script(StringIO(text)))
 
@@ -581,7 +588,7 @@ def _script_half(plan, ops, symbols, probe, trace):
         if plain is not want_f:
             raise Violation("C16:script:%s:last-formula-plain" % route,
                             "get_last_formula() = %s, live assertions = %s" % (plain, want_f))
-        want_goals = model.live_goals()
+        want_goals = (model_p if route == "parsed" else model).live_goals()
         if len(got_goals) != len(want_goals):
             raise Violation("C16:script:%s:goal-count" % route,
                             "script reports %d goals %s, model has %d" %
